@@ -229,6 +229,23 @@ def check_report(c):
         true(devs, "helper_fields.step_id_eq", bool(dh.step_id == rh.step_id) and bool(rh.step_id == dh.step_id), "decoded step id != original helper-class step id")
     if c["err"] is not None:
         true(devs, "helper_fields.failure_notice_eq", bool(dh.failure_notice == rh.failure_notice), "decoded failure notice != original with helper-class error code")
+    # the width of a step id / error code re-declared in place (plain attribute `pfc`, as the repository's own tests do) before the report is built
+    other_w = {1: 2, 2: 4, 4: 8, 8: 1}
+
+    def redeclared(wv):
+        f = PFE.with_byte_size(other_w[wv[0]], 0)
+        f.pfc = 8 * wv[0]
+        f.val = wv[1]
+        return f
+
+    if c["step"] is not None or c["err"] is not None:
+        step_r = None if c["step"] is None else redeclared(c["step"])
+        fail_r = None if c["err"] is None else s1.FailureNotice(redeclared(c["err"]), bytes.fromhex(c["fail_data"]))
+        rr = s1.Service1Tm(apid=c["apid"], subservice=s1.Subservice(c["sub"]), timestamp=ts, verif_params=s1.VerificationParams(build_req_id(c["req_id"]), step_r, fail_r), seq_count=c["seq"],
+                           packet_version=c["ver"], space_time_ref=c["time_ref"], destination_id=c["dest_id"])
+        eq(devs, "width_redeclared_in_place.bytes", bytes(rr.pack()), want)
+        eq(devs, "width_redeclared_in_place.obs", obs_report(rr), want_report_obs(c))
+        true(devs, "width_redeclared_in_place.eq_decoded", bool(s1.Service1Tm.unpack(want, up) == rr), "decoded report != report whose field widths were re-declared in place")
     # one UnpackParams object serves a whole downlink: decoding must not change it, and a report of another kind decoded
     # earlier with the same object must not influence this one
     w_step, w_err = (c["step"][0] if c["step"] else 1), (c["err"][0] if c["err"] else 1)
